@@ -284,7 +284,7 @@ func VerifC17One() {
 
 var vPrefixes = []string{"", "vendor/", "a/vendor/", "sub/", "vendor/a/", "Sub/"}
 
-var vDirs = []string{"", "d/", "sub/", "ſrc/", "src/", "ſrC/", "vendor/", "d/vendor/", "sub/d/"}
+var vDirs = []string{"", "d/", "vendor/", "sub/", "ſrc/", "src/", "ſrC/", "d/vendor/", "sub/d/"}
 var vBases = []string{"f.go", "go.mod", "d", "modules.txt", "GO.MOD", "x/y.go", "sub", "LICENSE"}
 
 // vSkelPath builds dir+base from the skeleton lists, with the case of the first
@@ -293,7 +293,8 @@ func vSkelPath(tag string) string {
 	d := vDirs[vChoice(tag+".dir", vParam("dirs", len(vDirs)))]
 	b := vBases[vChoice(tag+".base", vParam("bases", len(vBases)))]
 	p := d + b
-	if len(d) > 0 && p[0] < 0x80 && vChoice(tag+".symcase", 2) == 1 {
+	first := tag == "e0" || tag == "f0" || tag == "a"
+	if len(d) > 0 && p[0] < 0x80 && !(first && vParam("symcase0", 1) == 0) && vChoice(tag+".symcase", 2) == 1 {
 		// first letter of the path in either case, decided by the solver
 		c := vSym(tag+".case", 1, `[a-zA-Z]`)
 		vAssume(strings.EqualFold(c, p[:1]))
